@@ -23,7 +23,7 @@ try:
     cmd = ["/verif/check", pid, "--tier", tier] + (["--only", only] if only else [])
     c = subprocess.run(cmd, capture_output=True, text=True, env=env)
     lines = [l for l in c.stdout.splitlines() if l.startswith(("VIOLATION", "OK ", "INCONCLUSIVE", "KNOWN"))]
-    print("MUT: check exit", c.returncode, "|", " ; ".join(lines[:3]))
+    print("MUT: check exit", c.returncode, "|", " ; ".join(l[:110] for l in lines if not l.startswith("KNOWN"))[:260])
     if "--show" in rest:
         print(c.stdout[-3000:])
 finally:
